@@ -16,7 +16,7 @@ import time
 VERIF = os.path.dirname(os.path.dirname(os.path.abspath(__file__)))
 SEEDED = os.path.join(VERIF, "seeded")
 REPO = "/repo"
-WT = "/tmp/wt/confirm"
+WT = "/tmp/wt/confirm" + os.environ.get("VERIF_DETECT_TAG", "")
 
 
 def sh(cmd, cwd=None, timeout=3600, env=None):
